@@ -269,3 +269,493 @@ Proof.
       destruct (players_c cols p rest); [|discriminate]. inversion E as [E']. destruct (repeat _ _) in E'; discriminate E'.
   - intros p pns n Hin Hn. apply (beats_ok_in (n0 :: ns') n B). apply (gb_in nplayer (n0 :: ns') p pns n Hin Hn).
 Qed.
+
+(* ================================================================== B. the notes of that grid are the stream *)
+Definition renote (p m rows l : Z) (n : note) : note := mk p m rows l (ncol n) (ntype n) (nks n).
+
+Lemma cells_notes_app p m rows l : forall a c b,
+  cells_notes p m rows l c (a ++ b) = cells_notes p m rows l c a ++ cells_notes p m rows l (c + Z.of_nat (length a)) b.
+Proof.
+  induction a as [|x a IH]; intros c b; [cbn [app cells_notes length]; f_equal; lia|].
+  assert (E : c + Z.of_nat (length (x :: a)) = c + 1 + Z.of_nat (length a)) by (cbn [length]; lia).
+  rewrite E. destruct x as [[t ks]|]; cbn [app cells_notes]; rewrite IH; reflexivity.
+Qed.
+Lemma cells_notes_blank p m rows l : forall k c, cells_notes p m rows l c (repeat None k) = [].
+Proof. induction k as [|k IH]; intro c; simpl; [reflexivity|apply IH]. Qed.
+
+Lemma set_nth_app_ge {T} : forall (a b : list T) i v, (length a <= i)%nat ->
+  set_nth i v (a ++ b) = match set_nth (i - length a) v b with Some b' => Some (a ++ b') | None => None end.
+Proof.
+  induction a as [|x a IH]; intros b i v H; simpl.
+  - rewrite Nat.sub_0_r. destruct (set_nth i v b); reflexivity.
+  - destruct i as [|i]; [simpl in H; lia|]. simpl. rewrite IH by (simpl in H; lia). destruct (set_nth (i - length a) v b); reflexivity.
+Qed.
+Lemma set_nth_repeat {T} (x v : T) : forall k j, set_nth j v (repeat x k) =
+  if Nat.ltb j k then Some (repeat x j ++ v :: repeat x (k - j - 1)) else None.
+Proof.
+  induction k as [|k IH]; intro j; simpl.
+  - destruct j; reflexivity.
+  - destruct j as [|j]; simpl; [rewrite Nat.sub_0_r; reflexivity|].
+    rewrite IH. change (Nat.ltb (S j) (S k)) with (Nat.ltb j k). destruct (Nat.ltb j k); reflexivity.
+Qed.
+
+Definition cols_inc (row : list note) : Prop := StronglySorted (fun a b => ncol a < ncol b) row.
+
+Lemma place_c_sem : forall row done k cs,
+  place_c (done ++ repeat None k) row = Some cs -> cols_inc row ->
+  (forall n, In n row -> Z.of_nat (length done) <= ncol n) ->
+  exists tailc, cs = done ++ tailc /\ length tailc = k /\
+    (forall p m rows l, cells_notes p m rows l (Z.of_nat (length done)) tailc = map (renote p m rows l) row) /\
+    (Forall cell_ok done -> (forall n, In n row -> is_note_char (ntype n) = true) -> Forall cell_ok cs).
+Proof.
+  induction row as [|n r IH]; intros done k cs H Hinc Hge.
+  - simpl in H. inversion H; subst. exists (repeat None k). repeat split.
+    + apply repeat_length.
+    + intros. apply cells_notes_blank.
+    + intros Hd _. apply Forall_app. split; [exact Hd|]. apply Forall_forall. intros c Hc. apply repeat_spec in Hc. subst c. exact I.
+  - cbn [place_c] in H. destruct (ncol n <? 0) eqn:Eneg; [discriminate|]. apply Z.ltb_ge in Eneg.
+    destruct (note_str n) as [s|] eqn:Es; [|discriminate].
+    pose proof (Hge n (or_introl eq_refl)) as Hn.
+    assert (Hdn : (length done <= Z.to_nat (ncol n))%nat) by (apply Nat2Z.inj_le; rewrite Z2Nat.id by exact Eneg; exact Hn).
+    rewrite set_nth_app_ge in H by exact Hdn. rewrite set_nth_repeat in H.
+    match type of H with context [Nat.ltb ?a k] => set (j := a) in * end.
+    destruct (Nat.ltb j k) eqn:Ejk; cbv iota in H; [|discriminate H]. apply Nat.ltb_lt in Ejk.
+    inversion Hinc as [|? ? Hinc' Hlt]; subst. rewrite Forall_forall in Hlt.
+    match type of H with place_c ?X r = _ =>
+      assert (Eapp : X = (done ++ repeat None j ++ [note_cell n]) ++ repeat None (k - j - 1)) by (rewrite <- !app_assoc; reflexivity);
+      rewrite Eapp in H end.
+    assert (Hlen : length (done ++ repeat None j ++ [note_cell n]) = S (Z.to_nat (ncol n))).
+    { rewrite !app_length, repeat_length. simpl. unfold j. unfold cell in *. lia. }
+    destruct (IH _ _ _ H Hinc') as (tailc & Ecs & Htl & Hnotes & Hok).
+    { intros n' Hn'. rewrite Hlen. specialize (Hlt n' Hn'). lia. }
+    exists (repeat None j ++ [note_cell n] ++ tailc). repeat split.
+    + rewrite Ecs, <- !app_assoc. reflexivity.
+    + unfold cell in *. rewrite !app_length, repeat_length. cbn [length]. rewrite Htl. lia.
+    + intros p m rows l. rewrite cells_notes_app, cells_notes_blank, repeat_length. cbn [app].
+      unfold note_cell at 1. cbn [cells_notes map]. f_equal.
+      * unfold renote, mk. f_equal. unfold j. unfold cell in *. lia.
+      * rewrite <- (Hnotes p m rows l). f_equal. rewrite Hlen. unfold j. unfold cell in *. lia.
+    + intros Hd Ht. apply Hok.
+      * apply Forall_app. split; [exact Hd|]. apply Forall_app. split.
+        -- apply Forall_forall. intros c Hc. apply repeat_spec in Hc. subst c. exact I.
+        -- constructor; [|constructor]. unfold note_cell, cell_ok. split; [apply Ht; left; reflexivity|].
+           unfold note_str in Es. destruct (nks n) as [kk|]; [|exact I]. destruct (kk <? 0) eqn:X; [discriminate|]. apply Z.ltb_ge in X. exact X.
+      * intros n' Hn'. apply Ht. right. exact Hn'.
+Qed.
+
+Lemma place_c_blank cols row cs : place_c (blank_row cols) row = Some cs -> cols_inc row ->
+  length cs = cols /\ (forall p m rows l, cells_notes p m rows l 0 cs = map (renote p m rows l) row) /\
+  ((forall n, In n row -> is_note_char (ntype n) = true) -> Forall cell_ok cs) /\
+  (forall n, In n row -> 0 <= ncol n).
+Proof.
+  intros H Hinc.
+  assert (Hnn : forall n, In n row -> 0 <= ncol n).
+  { clear -H. revert H. generalize (blank_row cols). induction row as [|x r IH]; intros cells H n Hn; [destruct Hn|].
+    cbn [place_c] in H. destruct (ncol x <? 0) eqn:E; [discriminate|]. apply Z.ltb_ge in E.
+    destruct (note_str x); [|discriminate]. destruct (set_nth (Z.to_nat (ncol x)) (note_cell x) cells) as [c'|]; [|discriminate].
+    destruct Hn as [<-|Hn]; [exact E|apply (IH c' H n Hn)]. }
+  destruct (place_c_sem row [] cols cs H Hinc) as (tailc & E & Hl & Hn & Hok).
+  { intros n Hn. simpl. apply Hnn. exact Hn. }
+  simpl in E. subst tailc. repeat split; [exact Hl|exact Hn| |exact Hnn].
+  intro Ht. apply Hok; [constructor|exact Ht].
+Qed.
+
+(* ---- rows of one measure ---- *)
+Lemma rows_notes_app p m R : forall a l b,
+  rows_notes p m R l (a ++ b) = rows_notes p m R l a ++ rows_notes p m R (l + Z.of_nat (length a)) b.
+Proof.
+  induction a as [|x a IH]; intros l b; [cbn [app rows_notes length]; f_equal; lia|].
+  assert (E : l + Z.of_nat (length (x :: a)) = l + 1 + Z.of_nat (length a)) by (cbn [length]; lia).
+  rewrite E. cbn [app rows_notes]. rewrite IH, app_assoc. reflexivity.
+Qed.
+Lemma rows_notes_blank p m R cols : forall k l, rows_notes p m R l (repeat (blank_row cols) k) = [].
+Proof.
+  induction k as [|k IH]; intro l; [reflexivity|]. cbn [repeat rows_notes]. unfold blank_row at 1. rewrite cells_notes_blank. apply IH.
+Qed.
+
+Definition row_wf (cols : nat) (r : list cell) : Prop := length r = cols /\ Forall cell_ok r.
+Lemma blank_row_wf cols : row_wf cols (blank_row cols).
+Proof. split; [apply repeat_length|]. apply Forall_forall. intros c Hc. apply repeat_spec in Hc. subst c. exact I. Qed.
+
+Definition keys_inc (last : Z) (groups : list (Z * list note)) : Prop :=
+  StronglySorted (fun g h => fst g < fst h) groups /\ forall g, In g groups -> last < fst g.
+
+Lemma rows_c_sem cols q : forall groups last out,
+  rows_c cols q last groups = Some out -> keys_inc last groups -> -1 <= last < 4 * q ->
+  (forall g, In g groups -> fst g < 4 * q /\ cols_inc (snd g)) ->
+  Z.of_nat (length out) = 4 * q - (last + 1) /\
+  (forall p m R, rows_notes p m R (last + 1) out = flat_map (fun g => map (renote p m R (fst g)) (snd g)) groups) /\
+  ((forall g n, In g groups -> In n (snd g) -> is_note_char (ntype n) = true) -> Forall (row_wf cols) out).
+Proof.
+  induction groups as [|[r row] rest IH]; intros last out H [Hs Hgt] Hlast Hg.
+  - cbn [rows_c] in H. inversion H; subst. repeat split.
+    + rewrite repeat_length. lia.
+    + intros. apply rows_notes_blank.
+    + intros _. apply Forall_forall. intros x Hx. apply repeat_spec in Hx. subst x. apply blank_row_wf.
+  - cbn [rows_c] in H. destruct (place_c (blank_row cols) row) as [cs|] eqn:Ep; [|discriminate].
+    destruct (rows_c cols q r rest) as [t|] eqn:Er; [|discriminate]. inversion H; subst out. clear H.
+    destruct (Hg (r, row) (or_introl eq_refl)) as [Hr4 Hinc]. cbn [fst snd] in *.
+    pose proof (Hgt (r, row) (or_introl eq_refl)) as Hrl. cbn [fst] in Hrl.
+    inversion Hs as [|? ? Hs' Hall]; subst. rewrite Forall_forall in Hall.
+    destruct (IH r t Er) as (Ilen & Inotes & Iwf).
+    { split; [exact Hs'|]. intros g Hin. apply (Hall g Hin). }
+    { lia. }
+    { intros g Hin. apply Hg. right. exact Hin. }
+    destruct (place_c_blank cols row cs Ep Hinc) as (Clen & Cnotes & Cok & _).
+    repeat split.
+    + rewrite app_length, repeat_length. cbn [length]. lia.
+    + intros p m R. rewrite rows_notes_app, rows_notes_blank, repeat_length. cbn [app rows_notes flat_map].
+      replace (last + 1 + Z.of_nat (Z.to_nat (r - (last + 1)))) with r by lia.
+      rewrite Cnotes. f_equal. apply Inotes.
+    + intro Ht. apply Forall_app. split.
+      * apply Forall_forall. intros x Hx. apply repeat_spec in Hx. subst x. apply blank_row_wf.
+      * constructor.
+        -- split; [exact Clen|]. apply Cok. intros n Hn. apply (Ht (r, row) n); [left; reflexivity|exact Hn].
+        -- apply Iwf. intros g n Hin Hn. apply (Ht g n); [right; exact Hin|exact Hn].
+Qed.
+
+(* ---- one measure of one player ---- *)
+Lemma SS_impl_in {T} (R R' : T -> T -> Prop) l : StronglySorted R l ->
+  (forall a b, In a l -> In b l -> R a b -> R' a b) -> StronglySorted R' l.
+Proof.
+  induction 1 as [|x l Hs IH Hx]; intro H; [constructor|]. rewrite Forall_forall in Hx. constructor.
+  - apply IH. intros a b Ha Hb. apply H; right; assumption.
+  - apply Forall_forall. intros y Hy. apply H; [left; reflexivity|right; exact Hy|apply Hx; exact Hy].
+Qed.
+
+Lemma row_index_mono q a b : 0 < nb_d a -> 0 < nb_d b -> 0 < q -> (nb_d a | q) -> (nb_d b | q) ->
+  measure_index a = measure_index b -> nb_n a * nb_d b <= nb_n b * nb_d a -> row_index q a <= row_index q b.
+Proof.
+  intros Ha Hb Hq Da Db Hm Hle.
+  pose proof (placed_beat_is_own_beat q a Ha Hq Da) as Pa.
+  pose proof (placed_beat_is_own_beat q b Hb Hq Db) as Pb.
+  rewrite Hm in Pa. set (m := measure_index b) in *. clearbody m.
+  set (ra := row_index q a) in *. set (rb := row_index q b) in *. clearbody ra rb.
+  assert (E : (m * 4 * (4 * q) + ra * 4) * (nb_d a * nb_d b) <= (m * 4 * (4 * q) + rb * 4) * (nb_d a * nb_d b)) by nia.
+  apply Z.mul_le_mono_pos_r in E; [lia|nia].
+Qed.
+
+Record meas_ok (p m : Z) (ms : list note) : Prop := {
+  mo_sorted : StronglySorted plt ms;
+  mo_player : forall n, In n ms -> nplayer n = p;
+  mo_measure : forall n, In n ms -> measure_index n = m;
+  mo_beats : forall n, In n ms -> 0 < nb_d n /\ 0 <= nb_n n
+}.
+
+Lemma plt_same_player a b : plt a b -> nplayer a = nplayer b -> 0 < nb_d a -> 0 < nb_d b ->
+  nb_n a * nb_d b < nb_n b * nb_d a \/ (nb_n a * nb_d b = nb_n b * nb_d a /\ ncol a < ncol b).
+Proof.
+  intros H Hp Ha Hb. apply pos_cmp_lt in H; [|assumption..]. destruct H as [H|[_ H]]; [lia|exact H].
+Qed.
+
+Definition expected_measure (p m : Z) (ms : list note) : list note :=
+  flat_map (fun g => map (renote p m (4 * lcm_den ms) (fst g)) (snd g)) (group_by (row_index (lcm_den ms)) ms).
+
+Definition measure_wf (cols : nat) (x : measure) : Prop := x <> [] /\ Forall (row_wf cols) x.
+
+Lemma measure_c_sem cols p m ms x : measure_c cols ms = Some x -> meas_ok p m ms ->
+  Z.of_nat (length x) = 4 * lcm_den ms /\
+  (forall p' m', rows_notes p' m' (4 * lcm_den ms) 0 x =
+                 flat_map (fun g => map (renote p' m' (4 * lcm_den ms) (fst g)) (snd g)) (group_by (row_index (lcm_den ms)) ms)) /\
+  ((forall n, In n ms -> is_note_char (ntype n) = true) -> measure_wf cols x).
+Proof.
+  intros H [Hs Hp Hm Hb]. unfold measure_c in H. set (q := lcm_den ms) in *.
+  assert (Hq : 0 < q) by (apply lcm_den_pos; intros n Hn; apply (Hb n Hn)).
+  assert (Hdiv : forall n, In n ms -> (nb_d n | q)) by (intros n Hn; apply den_divides_lcm; exact Hn).
+  assert (Hrows : StronglySorted (fun a b => row_index q a <= row_index q b) ms).
+  { apply (SS_impl_in plt); [exact Hs|]. intros a b Ha Hb' Hab.
+    destruct (Hb a Ha) as [Da _]. destruct (Hb b Hb') as [Db _].
+    apply row_index_mono; auto; [rewrite (Hm a Ha), (Hm b Hb'); reflexivity|].
+    destruct (plt_same_player a b Hab) as [L|[E _]]; [rewrite (Hp a Ha), (Hp b Hb'); reflexivity|assumption|assumption|lia|lia]. }
+  destruct (rows_c_sem cols q (group_by (row_index q) ms) (-1) x H) as (Hlen & Hnotes & Hwf).
+  - split; [apply gb_sorted; exact Hrows|]. intros [k g] Hg. cbn [fst].
+    destruct (gb_keys (row_index q) ms k g Hg) as [Hne Hall]. destruct g as [|y g']; [congruence|].
+    rewrite <- (Hall y (or_introl eq_refl)).
+    assert (Hy : In y ms) by (apply (gb_in (row_index q) ms k (y :: g')); [exact Hg|left; reflexivity]).
+    destruct (row_index_exact q y) as [_ Hr]; [apply (Hb y Hy)|exact Hq|apply Hdiv; exact Hy|]. lia.
+  - lia.
+  - intros [k g] Hg. cbn [fst snd]. destruct (gb_keys (row_index q) ms k g Hg) as [Hne Hall]. split.
+    + destruct g as [|y g']; [congruence|]. rewrite <- (Hall y (or_introl eq_refl)).
+      assert (Hy : In y ms) by (apply (gb_in (row_index q) ms k (y :: g')); [exact Hg|left; reflexivity]).
+      destruct (row_index_exact q y) as [_ Hr]; [apply (Hb y Hy)|exact Hq|apply Hdiv; exact Hy|]. lia.
+    + (* one row: same beat, so the columns increase *)
+      assert (Hsub : StronglySorted plt g).
+      { apply (SS_concat_in plt (map snd (group_by (row_index q) ms)) g); [rewrite gb_concat; exact Hs|].
+        apply in_map_iff. exists (k, g). auto. }
+      apply (SS_impl_in plt); [exact Hsub|]. intros a b Ha Hb' Hab.
+      assert (Ha' : In a ms) by (apply (gb_in (row_index q) ms k g); assumption).
+      assert (Hb'' : In b ms) by (apply (gb_in (row_index q) ms k g); assumption).
+      destruct (Hb a Ha') as [Da _]. destruct (Hb b Hb'') as [Db _].
+      destruct (plt_same_player a b Hab) as [L|[_ C]]; [rewrite (Hp a Ha'), (Hp b Hb''); reflexivity|assumption|assumption| |exact C].
+      exfalso. assert (E : row_index q a = row_index q b) by (rewrite (Hall a Ha), (Hall b Hb'); reflexivity).
+      apply same_row_iff_same_beat in E; auto; [lia|rewrite (Hm a Ha'), (Hm b Hb''); reflexivity].
+  - repeat split.
+    + rewrite Hlen. lia.
+    + intros p' m'. specialize (Hnotes p' m' (4 * q)). replace (-1 + 1) with 0 in Hnotes by lia. exact Hnotes.
+    + destruct x; [cbn [length] in Hlen; lia|discriminate].
+    + apply Hwf. intros g n Hg Hn. apply H0. destruct g as [k g]. apply (gb_in (row_index q) ms k g); assumption.
+Qed.
+
+(* ---- the measures of one player ---- *)
+Lemma measures_notes_app p : forall a m b,
+  measures_notes p m (a ++ b) = measures_notes p m a ++ measures_notes p (m + Z.of_nat (length a)) b.
+Proof.
+  induction a as [|x a IH]; intros m b; [cbn [app measures_notes length]; f_equal; lia|].
+  assert (E : m + Z.of_nat (length (x :: a)) = m + 1 + Z.of_nat (length a)) by (cbn [length]; lia).
+  rewrite E. cbn [app measures_notes]. rewrite IH, app_assoc. reflexivity.
+Qed.
+Lemma measures_notes_blank p cols : forall k m, measures_notes p m (repeat (blank_m cols) k) = [].
+Proof.
+  induction k as [|k IH]; intro m; [reflexivity|]. cbn [repeat measures_notes]. unfold blank_m at 2. rewrite rows_notes_blank. apply IH.
+Qed.
+Lemma blank_m_wf cols : measure_wf cols (blank_m cols).
+Proof. split; [discriminate|]. apply Forall_forall. intros x Hx. apply repeat_spec in Hx. subst x. apply blank_row_wf. Qed.
+
+Lemma measures_c_sem cols p : forall groups last out,
+  measures_c cols last groups = Some out -> keys_inc last groups -> -1 <= last ->
+  (forall g, In g groups -> meas_ok p (fst g) (snd g)) ->
+  (forall p', measures_notes p' (last + 1) out = flat_map (fun g => expected_measure p' (fst g) (snd g)) groups) /\
+  ((forall g n, In g groups -> In n (snd g) -> is_note_char (ntype n) = true) -> Forall (measure_wf cols) out) /\
+  (groups <> [] -> out <> []).
+Proof.
+  induction groups as [|[m ms] rest IH]; intros last out H [Hs Hgt] Hlast Hg.
+  - cbn [measures_c] in H. inversion H; subst. repeat split; [constructor|congruence].
+  - cbn [measures_c] in H. destruct (measure_c cols ms) as [x|] eqn:Em; [|discriminate].
+    destruct (measures_c cols m rest) as [t|] eqn:Er; [|discriminate]. inversion H; subst out. clear H.
+    pose proof (Hgt (m, ms) (or_introl eq_refl)) as Hml. cbn [fst] in Hml.
+    inversion Hs as [|? ? Hs' Hall]; subst. rewrite Forall_forall in Hall.
+    destruct (IH m t Er) as (Inotes & Iwf & _).
+    { split; [exact Hs'|]. intros g Hin. apply (Hall g Hin). }
+    { lia. }
+    { intros g Hin. apply Hg. right. exact Hin. }
+    destruct (measure_c_sem cols p m ms x Em (Hg (m, ms) (or_introl eq_refl))) as (Mlen & Mnotes & Mwf).
+    repeat split.
+    + intro p'. rewrite measures_notes_app, measures_notes_blank, repeat_length. cbn [app measures_notes flat_map fst snd].
+      replace (last + 1 + Z.of_nat (Z.to_nat (m - (last + 1)))) with m by lia.
+      rewrite Mlen, Mnotes. unfold expected_measure at 1. f_equal. apply Inotes.
+    + intro Ht. apply Forall_app. split.
+      * apply Forall_forall. intros y Hy. apply repeat_spec in Hy. subst y. apply blank_m_wf.
+      * constructor; [apply Mwf; intros n Hn; apply (Ht (m, ms) n); [left; reflexivity|exact Hn]|].
+        apply Iwf. intros g n Hin Hn. apply (Ht g n); [right; exact Hin|exact Hn].
+    + intros _. destruct (repeat (blank_m cols) (Z.to_nat (m - (last + 1)))); discriminate.
+Qed.
+
+(* ---- the players ---- *)
+Lemma players_notes_app : forall a p b,
+  players_notes p (a ++ b) = players_notes p a ++ players_notes (p + Z.of_nat (length a)) b.
+Proof.
+  induction a as [|x a IH]; intros p b; [cbn [app players_notes length]; f_equal; lia|].
+  assert (E : p + Z.of_nat (length (x :: a)) = p + 1 + Z.of_nat (length a)) by (cbn [length]; lia).
+  rewrite E. cbn [app players_notes]. rewrite IH, app_assoc. reflexivity.
+Qed.
+Lemma players_notes_blank cols : forall k p, players_notes p (repeat [blank_m cols] k) = [].
+Proof.
+  induction k as [|k IH]; intro p; [reflexivity|]. cbn [repeat players_notes measures_notes]. unfold blank_m at 2. rewrite rows_notes_blank. apply IH.
+Qed.
+
+Record player_ok' (p : Z) (pns : list note) : Prop := {
+  po_sorted : StronglySorted plt pns;
+  po_player : forall n, In n pns -> nplayer n = p;
+  po_beats : forall n, In n pns -> 0 < nb_d n /\ 0 <= nb_n n
+}.
+
+Definition expected_player (p : Z) (pns : list note) : list note :=
+  flat_map (fun g => expected_measure p (fst g) (snd g)) (group_by measure_index pns).
+
+Definition player_wf (cols : nat) (x : list measure) : Prop := x <> [] /\ Forall (measure_wf cols) x.
+
+Lemma measure_index_mono a b : 0 < nb_d a -> 0 < nb_d b -> nb_n a * nb_d b <= nb_n b * nb_d a -> measure_index a <= measure_index b.
+Proof.
+  intros Ha Hb Hle. unfold measure_index.
+  apply Z.div_le_lower_bound; [lia|].
+  pose proof (Z.mul_div_le (nb_n a) (4 * nb_d a) ltac:(lia)) as Hm.
+  set (m := nb_n a / (4 * nb_d a)) in *. clearbody m.
+  assert (E : (4 * nb_d b * m) * nb_d a <= nb_n b * nb_d a) by nia.
+  apply Z.mul_le_mono_pos_r in E; lia.
+Qed.
+
+Lemma player_measures cols p pns x : measures_c cols (-1) (group_by measure_index pns) = Some x -> player_ok' p pns -> pns <> [] ->
+  (forall p', measures_notes p' 0 x = expected_player p' pns) /\
+  ((forall n, In n pns -> is_note_char (ntype n) = true) -> player_wf cols x).
+Proof.
+  intros H [Hs Hp Hb] Hne.
+  assert (Hmono : StronglySorted (fun a b => measure_index a <= measure_index b) pns).
+  { apply (SS_impl_in plt); [exact Hs|]. intros a b Ha Hb' Hab.
+    destruct (Hb a Ha) as [Da _]. destruct (Hb b Hb') as [Db _]. apply measure_index_mono; auto.
+    destruct (plt_same_player a b Hab) as [L|[E _]]; [rewrite (Hp a Ha), (Hp b Hb'); reflexivity|assumption|assumption|lia|lia]. }
+  destruct (measures_c_sem cols p (group_by measure_index pns) (-1) x H) as (Hnotes & Hwf & Hnonempty).
+  - split; [apply gb_sorted; exact Hmono|]. intros [k g] Hg. cbn [fst].
+    destruct (gb_keys measure_index pns k g Hg) as [Hgne Hall]. destruct g as [|y g']; [congruence|].
+    rewrite <- (Hall y (or_introl eq_refl)).
+    assert (Hy : In y pns) by (apply (gb_in measure_index pns k (y :: g')); [exact Hg|left; reflexivity]).
+    destruct (Hb y Hy) as [A B]. pose proof (measure_index_nonneg y B A). lia.
+  - lia.
+  - intros [k g] Hg. cbn [fst snd]. destruct (gb_keys measure_index pns k g Hg) as [Hgne Hall].
+    assert (Hin : forall n, In n g -> In n pns) by (intros n Hn; apply (gb_in measure_index pns k g); assumption).
+    constructor.
+    + apply (SS_concat_in plt (map snd (group_by measure_index pns)) g); [rewrite gb_concat; exact Hs|].
+      apply in_map_iff. exists (k, g). auto.
+    + intros n Hn. apply Hp, Hin, Hn.
+    + exact Hall.
+    + intros n Hn. apply Hb, Hin, Hn.
+  - split.
+    + intro p'. specialize (Hnotes p'). replace (-1 + 1) with 0 in Hnotes by lia. exact Hnotes.
+    + intro Ht. split.
+      * apply Hnonempty. intro E. pose proof (gb_concat measure_index pns) as C. rewrite E in C. simpl in C. congruence.
+      * apply Hwf. intros [k g] n Hg Hn. apply Ht. apply (gb_in measure_index pns k g); assumption.
+Qed.
+
+Lemma players_c_sem cols : forall groups last out,
+  players_c cols last groups = Some out -> -1 <= last ->
+  (forall g, In g groups -> player_ok' (fst g) (snd g) /\ snd g <> []) ->
+  players_notes (last + 1) out = flat_map (fun g => expected_player (fst g) (snd g)) groups /\
+  ((forall g n, In g groups -> In n (snd g) -> is_note_char (ntype n) = true) -> Forall (player_wf cols) out).
+Proof.
+  induction groups as [|[p pns] rest IH]; intros last out H Hlast Hg.
+  - cbn [players_c] in H. inversion H; subst. split; [reflexivity|constructor].
+  - cbn [players_c] in H. destruct (p <=? last) eqn:Ep; [discriminate|]. apply Z.leb_gt in Ep.
+    destruct (measures_c cols (-1) (group_by measure_index pns)) as [x|] eqn:Em; [|discriminate].
+    destruct (players_c cols p rest) as [t|] eqn:Er; [|discriminate]. inversion H; subst out. clear H.
+    destruct (IH p t Er) as (Inotes & Iwf); [lia|intros g Hin; apply Hg; right; exact Hin|].
+    destruct (Hg (p, pns) (or_introl eq_refl)) as [Hok Hne]. cbn [fst snd] in *.
+    destruct (player_measures cols p pns x Em Hok Hne) as (Pnotes & Pwf).
+    split.
+    + rewrite players_notes_app, players_notes_blank, repeat_length. cbn [app players_notes flat_map fst snd].
+      replace (last + 1 + Z.of_nat (Z.to_nat (p - (last + 1)))) with p by lia.
+      rewrite Pnotes. f_equal. exact Inotes.
+    + intro Ht. apply Forall_app. split.
+      * apply Forall_forall. intros y Hy. apply repeat_spec in Hy. subst y. split; [discriminate|]. constructor; [apply blank_m_wf|constructor].
+      * constructor; [apply Pwf; intros n Hn; apply (Ht (p, pns) n); [left; reflexivity|exact Hn]|].
+        apply Iwf. intros g n Hin Hn. apply (Ht g n); [right; exact Hin|exact Hn].
+Qed.
+
+(* ================================================================== C. the round trip *)
+Definition note_eqv (a b : note) : Prop :=
+  nb_n a * nb_d b = nb_n b * nb_d a /\ 0 < nb_d a /\ ncol a = ncol b /\ ntype a = ntype b /\ nplayer a = nplayer b /\ nks a = nks b.
+
+Lemma renote_eqv q n : 0 < nb_d n -> 0 < q -> (nb_d n | q) ->
+  note_eqv (renote (nplayer n) (measure_index n) (4 * q) (row_index q n) n) n.
+Proof.
+  intros Hd Hq Hdiv. unfold note_eqv, renote, mk. cbn [nb_n nb_d ncol ntype nplayer nks].
+  repeat split; [|lia]. apply placed_beat_is_own_beat; assumption.
+Qed.
+
+Lemma Forall2_map_self {A} (R : A -> A -> Prop) (f : A -> A) l : (forall x, In x l -> R (f x) x) -> Forall2 R (map f l) l.
+Proof. induction l as [|x l IH]; intro H; simpl; constructor; [apply H; left; reflexivity|apply IH; intros; apply H; right; assumption]. Qed.
+
+Lemma Forall2_flat_groups {K A B} (R : B -> A -> Prop) (F : K * list A -> list B) : forall groups,
+  (forall g, In g groups -> Forall2 R (F g) (snd g)) -> Forall2 R (flat_map F groups) (concat (map snd groups)).
+Proof.
+  induction groups as [|g rest IH]; intro H; simpl; [constructor|].
+  apply Forall2_app; [apply H; left; reflexivity|apply IH; intros; apply H; right; assumption].
+Qed.
+
+Lemma expected_measure_eqv p m ms : meas_ok p m ms -> Forall2 note_eqv (expected_measure p m ms) ms.
+Proof.
+  intros [Hs Hp Hm Hb]. unfold expected_measure. set (q := lcm_den ms).
+  assert (Hq : 0 < q) by (apply lcm_den_pos; intros n Hn; apply (Hb n Hn)).
+  rewrite <- (gb_concat (row_index q) ms) at 2. apply Forall2_flat_groups.
+  intros [k g] Hg. cbn [fst snd]. apply Forall2_map_self. intros n Hn.
+  assert (Hin : In n ms) by (apply (gb_in (row_index q) ms k g); assumption).
+  destruct (gb_keys (row_index q) ms k g Hg) as [_ Hall].
+  rewrite <- (Hall n Hn), <- (Hp n Hin), <- (Hm n Hin).
+  apply renote_eqv; [apply (Hb n Hin)|exact Hq|apply den_divides_lcm; exact Hin].
+Qed.
+
+Lemma player_groups_ok p pns : player_ok' p pns -> forall k g, In (k, g) (group_by measure_index pns) -> meas_ok p k g.
+Proof.
+  intros [Hs Hp Hb] k g Hg. destruct (gb_keys measure_index pns k g Hg) as [Hgne Hall].
+  assert (Hin : forall n, In n g -> In n pns) by (intros n Hn; apply (gb_in measure_index pns k g); assumption).
+  constructor.
+  - apply (SS_concat_in plt (map snd (group_by measure_index pns)) g); [rewrite gb_concat; exact Hs|].
+    apply in_map_iff. exists (k, g). auto.
+  - intros n Hn. apply Hp, Hin, Hn.
+  - exact Hall.
+  - intros n Hn. apply Hb, Hin, Hn.
+Qed.
+
+Lemma expected_player_eqv p pns : player_ok' p pns -> Forall2 note_eqv (expected_player p pns) pns.
+Proof.
+  intro H. unfold expected_player. rewrite <- (gb_concat measure_index pns) at 2. apply Forall2_flat_groups.
+  intros [k g] Hg. cbn [fst snd]. apply expected_measure_eqv. apply (player_groups_ok p pns H k g Hg).
+Qed.
+
+Lemma stream_groups_ok ns : StronglySorted plt ns -> beats_ok ns = true ->
+  forall g, In g (group_by nplayer ns) -> player_ok' (fst g) (snd g) /\ snd g <> [].
+Proof.
+  intros Hs Hb [p pns] Hg. cbn [fst snd]. destruct (gb_keys nplayer ns p pns Hg) as [Hne Hall].
+  assert (Hin : forall n, In n pns -> In n ns) by (intros n Hn; apply (gb_in nplayer ns p pns); assumption).
+  split; [|exact Hne]. constructor.
+  - apply (SS_concat_in plt (map snd (group_by nplayer ns)) pns); [rewrite gb_concat; exact Hs|].
+    apply in_map_iff. exists (p, pns). auto.
+  - exact Hall.
+  - intros n Hn. apply (beats_ok_in ns n Hb), Hin, Hn.
+Qed.
+
+(* well-formedness in the sense of the text layer, and the keysound / width conditions of decode *)
+Lemma row_wf_ok cols r : (0 < cols)%nat -> row_wf cols r -> row_ok r.
+Proof. intros Hc [Hl Hok]. split; [destruct r; [simpl in Hl; lia|discriminate]|exact Hok]. Qed.
+Lemma measure_wf_ok cols x : (0 < cols)%nat -> measure_wf cols x -> measure_ok x.
+Proof.
+  intros Hc [Hne Hall]. split; [exact Hne|]. apply Forall_forall. intros r Hr. rewrite Forall_forall in Hall. apply (row_wf_ok cols); auto.
+Qed.
+Lemma player_wf_ok cols x : (0 < cols)%nat -> player_wf cols x -> player_ok x.
+Proof.
+  intros Hc [Hne Hall]. split; [exact Hne|]. apply Forall_forall. intros r Hr. rewrite Forall_forall in Hall. apply (measure_wf_ok cols); auto.
+Qed.
+
+Lemma row_ks_ok_width cols r : length r = cols -> row_ks_ok cols r = true.
+Proof.
+  intro H. unfold row_ks_ok. apply forallb_forall. intros [i c] Hic. cbn [fst snd].
+  destruct c as [[t [k|]]|]; try reflexivity. apply in_combine_l in Hic. apply in_seq in Hic. apply Nat.ltb_lt. lia.
+Qed.
+
+Lemma grid_ks_ok_width cols g : Forall (player_wf cols) g -> grid_ks_ok cols g = true.
+Proof.
+  intro H. unfold grid_ks_ok. apply forallb_forall. intros pl Hpl. rewrite Forall_forall in H. destruct (H pl Hpl) as [_ Hm].
+  apply forallb_forall. intros ms Hms. rewrite Forall_forall in Hm. destruct (Hm ms Hms) as [_ Hr].
+  apply forallb_forall. intros r Hrr. rewrite Forall_forall in Hr. destruct (Hr r Hrr) as [Hl _]. apply row_ks_ok_width. exact Hl.
+Qed.
+
+Theorem decode_of_wf_grid cols g : (0 < cols)%nat -> g <> [] -> Forall (player_wf cols) g ->
+  decode (grid_text g) = Some (cols, notes_of_grid g).
+Proof.
+  intros Hc Hne Hwf.
+  assert (Hok : grid_ok g).
+  { split; [exact Hne|]. apply Forall_forall. intros p Hp. rewrite Forall_forall in Hwf. apply (player_wf_ok cols); auto. }
+  destruct (decode_grid_text g Hok) as (r0 & m0 & p0 & g' & Eg & Hd).
+  assert (Hl : length r0 = cols).
+  { pose proof Hwf as Hwf2. rewrite Eg in Hwf2. inversion Hwf2 as [|? ? [_ Hp] _]; subst. inversion Hp as [|? ? [_ Hm] _]; subst.
+    inversion Hm as [|? ? [Hl _] _]; subst. reflexivity. }
+  rewrite Hd, Hl, (grid_ks_ok_width cols g Hwf). reflexivity.
+Qed.
+
+(* Building note data from a position-sorted stream and reading it back gives the same notes and the
+   requested column count. *)
+Theorem encode_decode cols ns text : (0 < cols)%nat -> StronglySorted plt ns ->
+  (forall n, In n ns -> is_note_char (ntype n) = true) ->
+  encode cols ns = Some text ->
+  exists ns', decode text = Some (cols, ns') /\ Forall2 note_eqv ns' ns.
+Proof.
+  intros Hc Hs Ht H. rewrite encode_text in H. destruct (beats_ok ns) eqn:B; cbn [negb] in H; [|discriminate].
+  destruct ns as [|n0 ns'] eqn:Ens.
+  - inversion H; subst text. exists []. split; [|constructor].
+    rewrite (decode_of_wf_grid cols [[blank_m cols]] Hc); [|discriminate|].
+    { f_equal. f_equal. unfold notes_of_grid. cbn [players_notes measures_notes]. unfold blank_m at 2. rewrite rows_notes_blank. reflexivity. }
+    constructor; [|constructor]. split; [discriminate|]. constructor; [apply blank_m_wf|constructor].
+  - rewrite <- Ens in *. destruct (players_c cols (-1) (group_by nplayer ns)) as [g|] eqn:E; [|discriminate].
+    inversion H; subst text. clear H.
+    destruct (players_c_sem cols (group_by nplayer ns) (-1) g E) as (Hnotes & Hwf); [lia|apply stream_groups_ok; assumption|].
+    assert (Hg : g <> []).
+    { intro X. subst g. destruct (group_by nplayer ns) as [|[p pns] rest] eqn:G.
+      - pose proof (gb_concat nplayer ns) as C. rewrite G in C. simpl in C. rewrite <- C in Ens. discriminate Ens.
+      - cbn [players_c] in E. destruct (p <=? -1); [discriminate|].
+        destruct (measures_c cols (-1) (group_by measure_index pns)); [|discriminate].
+        destruct (players_c cols p rest); [|discriminate]. inversion E as [E']. destruct (repeat _ _) in E'; discriminate E'. }
+    assert (Hwf' : Forall (player_wf cols) g).
+    { apply Hwf. intros [p pns] n Hin Hn. apply Ht. apply (gb_in nplayer ns p pns); assumption. }
+    exists (notes_of_grid g). split; [apply decode_of_wf_grid; assumption|].
+    unfold notes_of_grid. replace 0 with (-1 + 1) by lia. rewrite Hnotes.
+    rewrite <- (gb_concat nplayer ns) at 2. apply Forall2_flat_groups.
+    intros [p pns] Hin. cbn [fst snd]. apply expected_player_eqv. apply (stream_groups_ok ns Hs B (p, pns) Hin).
+Qed.
